@@ -274,7 +274,7 @@ func devApplies(dev, kind string) bool {
 		return true
 	case "bal+1", "bal-1", "balnil", "balbad":
 		return kind == "bal"
-	case "amt+1", "amt-1", "noop":
+	case "amt+1", "amt-1", "noop", "revertmoved":
 		return kind == "mint" || kind == "burnc" || kind == "burn" || kind == "xfer"
 	case "false", "falsemoved", "retempty", "retbad", "ret2", "approval", "approvalfirst", "approval1", "approval4", "notopics", "otherlog", "credit":
 		return kind == "xfer"
@@ -397,6 +397,11 @@ func (m *ScriptEVM) ApplyMessage(ctx sdk.Context, msg core.Message, tracer vm.EV
 			m.setBal(ctx, c, to, new(big.Int).Add(m.Bal(ctx, c, to), amt))
 		}
 		res.Logs = []*evmtypes.Log{transferLog(c, zero, to, amt)}
+		if dev == "revertmoved" {
+			// a contract that reports the revert of a call (bare revert, no reason) whose effect it nevertheless shows in
+			// every later answer: the keeper must go by the revert
+			return m.answer(kind, reverted(), nil)
+		}
 		return m.answer(kind, res, nil)
 	case "burnCoins", "burn":
 		var who common.Address
@@ -418,6 +423,9 @@ func (m *ScriptEVM) ApplyMessage(ctx sdk.Context, msg core.Message, tracer vm.EV
 			m.setSup(ctx, c, new(big.Int).Sub(m.Sup(ctx, c), amt))
 		}
 		res.Logs = []*evmtypes.Log{transferLog(c, who, zero, amt)}
+		if dev == "revertmoved" {
+			return m.answer(kind, reverted(), nil)
+		}
 		return m.answer(kind, res, nil)
 	case "transfer":
 		to, amt := args[0].(common.Address), adj(args[1].(*big.Int))
@@ -465,6 +473,8 @@ func (m *ScriptEVM) ApplyMessage(ctx sdk.Context, msg core.Message, tracer vm.EV
 			res.Logs = append(res.Logs, &evmtypes.Log{Address: c.Hex(), Topics: []string{}, Data: word(amt)})
 		case "otherlog":
 			res.Logs = append(res.Logs, &evmtypes.Log{Address: c.Hex(), Topics: []string{otherSig.Hex()}, Data: word(amt)})
+		case "revertmoved":
+			return m.answer(kind, reverted(), nil)
 		}
 		return m.answer(kind, res, nil)
 	}
